@@ -33,8 +33,80 @@ PAIRS = [(480, 500000), (96, 600000), (1000, 333333), (384, 250000), (960, 10000
 CLOCKS = [(480, 500000), (1000, 600000), (96, 600000), (4000, 500000), (1, 1000000)]
 STEPS = ["C", "D", "E", "F", "G", "A", "B"]
 BASE = {"C": 0, "D": 2, "E": 4, "F": 5, "G": 7, "A": 9, "B": 11}
-ARTS = ["staccato", "accent", "tenuto", "marcato", "breath-mark"]
+# the articulation and ornament names partitura's own readers produce (io/importmusicxml.py: get_articulations,
+# get_ornaments; io/exportmusicxml.py: ARTICULATIONS) -- gen() checks this list against the tree under test and
+# proves in Coq that, of the whole vocabulary, only "staccato" and "accent" read back as a supported articulation
+ART_VOCAB = ["accent", "strong-accent", "staccato", "tenuto", "detached-legato", "staccatissimo", "spiccato", "scoop",
+             "plop", "doit", "falloff", "breath-mark", "caesura", "stress", "unstress", "soft-accent"]
+ORN_VOCAB = ["trill-mark", "turn", "delayed-turn", "inverted-turn", "delayed-inverted-turn", "vertical-turn",
+             "inverted-vertical-turn", "shake", "wavy-line", "mordent", "inverted-mordent", "schleifer", "tremolo",
+             "haydn", "other-ornament"]
+# weights: the two supported names, the names that contain / start like a supported one, the rest
+ART_WEIGHTS = [4 if a in ("staccato", "accent") else 3 if ("accent" in a or a.startswith("s") or "stac" in a or a == "detached-legato") else 1
+               for a in ART_VOCAB]
 SUPPORTED_ARTS = ("staccato", "accent")
+
+
+def draw_attrs(rng):
+    """articulations, ornaments, fermata, fingering of one generated note"""
+    r = rng.random()
+    k = 0 if r < 0.5 else 1 if r < 0.8 else 2 if r < 0.93 else 3
+    arts = []
+    for a in rng.choices(ART_VOCAB, weights=ART_WEIGHTS, k=k):
+        if a not in arts:
+            arts.append(a)
+    orns = []
+    if rng.random() < 0.12:
+        for a in rng.choices(ORN_VOCAB, k=rng.randint(1, 2)):
+            if a not in orns:
+                orns.append(a)
+    ferm = rng.random() < 0.06
+    fing = rng.randint(1, 5) if rng.random() < 0.08 else None
+    return arts, orns, ferm, fing
+
+
+def reflect_vocab():
+    """articulation and ornament names of the tree under test: io/exportmusicxml.py ARTICULATIONS and the tuples
+    `articulations` / `ornaments` in io/importmusicxml.py get_articulations / get_ornaments (read from the
+    source with ast), united with the generator's lists -> (articulations, ornaments, names found in the tree)"""
+    import ast
+    import inspect
+    arts, orns, found = set(ART_VOCAB), set(ORN_VOCAB), 0
+    try:
+        from partitura.io import exportmusicxml
+        live = [str(a) for a in exportmusicxml.ARTICULATIONS]
+        arts.update(live)
+        found += len(live)
+    except Exception:
+        pass
+    try:
+        from partitura.io import importmusicxml
+        for fn, name, dest in (("get_articulations", "articulations", arts), ("get_ornaments", "ornaments", orns)):
+            tree = ast.parse(inspect.getsource(getattr(importmusicxml, fn)))
+            for node in ast.walk(tree):
+                if isinstance(node, ast.Assign) and any(isinstance(t, ast.Name) and t.id == name for t in node.targets):
+                    vals = ast.literal_eval(node.value)
+                    dest.update(str(v) for v in vals)
+                    found += len(vals)
+    except Exception:
+        pass
+    ok = lambda w: all(32 <= ord(c) < 127 for c in w) and '"' not in w
+    return sorted(a for a in arts if ok(a)), sorted(o for o in orns if ok(o)), found
+
+
+def gen():
+    """Gen/C08_Vocab.v: the articulation / ornament vocabulary of the tree under test (Proofs/C08_attrs.v proves by
+    computation over these complete lists that no name but "staccato" / "accent" reads back as a supported
+    articulation and that none disturbs the voice, staff, grace or tie marks)"""
+    core.setup_import_path()
+    arts, orns, found = reflect_vocab()
+    text = "\n".join([
+        "(* GENERATED by harness/props/c08.py from the working tree -- do not edit *)",
+        "From Coq Require Import List String.", "Import ListNotations.", "",
+        "Definition art_vocab : list string := %s." % clist([cstr(a) for a in arts]),
+        "Definition orn_vocab : list string := %s." % clist([cstr(a) for a in orns]), ""])
+    core.write_gen("C08_Vocab", text)
+    return found
 
 
 def measure_len(divs, num, den):
@@ -69,7 +141,14 @@ def gen_case(rng, size=1.0):
     for mi in sorted(rng.sample(range(1, nmeas), min(nchg, nmeas - 1))) if nmeas > 1 else []:
         cand = [m for m in meters if list(m) != tsigs[-1][1:]]
         if cand:
-            tsigs.append([mi] + list(rng.choice(cand)))
+            back = tuple(tsigs[0][1:])  # the first signature again after another one (A, B, A)
+            tsigs.append([mi] + list(back if len(tsigs) > 1 and back in cand and rng.random() < 0.4 else rng.choice(cand)))
+    # a signature written again with the value in force (the reader keeps the first row of a run of equal values)
+    if nmeas > 1 and rng.random() < 0.12:
+        mi = rng.randint(1, nmeas - 1)
+        if all(ts[0] != mi for ts in tsigs):
+            prev = [ts for ts in tsigs if ts[0] < mi][-1]
+            tsigs = sorted(tsigs + [[mi] + prev[1:]])
     # measure table
     starts, tsm = [], []
     t = 0
@@ -96,11 +175,18 @@ def gen_case(rng, size=1.0):
     for mi in range(1, nmeas):
         if rng.random() < 0.2:
             k = [mi, rng.randint(-7, 7), rng.choice(["major", "minor"])]
-            if not ksigs or ksigs[-1][1:] != k[1:]:
+            if ksigs and rng.random() < 0.15:
+                k[1:] = ksigs[-1][1:3]  # the key in force written again
+            if not ksigs or ksigs[-1][1:3] != k[1:] or rng.random() < 0.5:
+                # written inside the bar (4th element: divisions after the barline): loaded at the start of that bar
+                slots = (bounds[mi + 1] - bounds[mi]) // g
+                if slots >= 2 and rng.random() < 0.2:
+                    k.append(g * rng.randint(1, slots - 1))
                 ksigs.append(k)
     # notes
     id_style = rng.choice(["n", "s", "m", "n"])
-    with_vs = rng.random() < 0.9  # voices and staves given
+    r = rng.random()
+    vs_mode = "none" if r < 0.07 else "voices_only" if r < 0.14 else "some_voices_missing" if r < 0.25 else "some_staves_missing" if r < 0.36 else "all"
     notes = []
     nid = 0
     used = set()  # (onset, midi pitch) -> avoid accidental unisons except on purpose
@@ -119,11 +205,16 @@ def gen_case(rng, size=1.0):
             voice = rng.randint(1, 4)
             if rng.random() < 0.12:  # a grace note in front of the event
                 st = rng.choice(STEPS)
+                ga = draw_attrs(rng) if rng.random() < 0.3 else ([], [], False, None)
                 notes.append(dict(id=nid, step=st, alter=rng.choice([0, 0, 1, -1]), octave=rng.randint(2, 6), on=on, dur=0,
-                                  voice=voice, staff=1 if voice <= 2 else 2, grace=True, arts=[], tie=[]))
+                                  voice=voice, staff=1 if voice <= 2 else 2, grace=True, arts=ga[0], orns=ga[1], fermata=ga[2],
+                                  fingering=ga[3], tie=[]))
                 nid += 1
             for c in range(chord):
+                unison = c > 0 and rng.random() < 0.15  # the pitch of the previous chord note again, in another voice
                 for _try in range(6):
+                    if unison:
+                        break
                     st, al, oc = rng.choice(STEPS), rng.choice([0, 0, 0, 1, -1, 2, -2, None]), rng.randint(1, 7)
                     mp = 12 * (oc + 1) + BASE[st] + (al or 0)
                     if (on, mp) not in used or rng.random() < 0.05:
@@ -144,18 +235,43 @@ def gen_case(rng, size=1.0):
                 cuts = [b for b in bounds if on < b < on + d]
                 if not cuts and d >= 2 * g and rng.random() < 0.1:
                     cuts = [on + g * rng.randint(1, d // g - 1)]
-                arts = [a for a in ARTS if rng.random() < 0.12]
+                arts, orns, ferm, fing = draw_attrs(rng)
                 v = voice if c == 0 or rng.random() < 0.8 else rng.randint(1, 4)
+                if unison:
+                    v = 1 + (voice % 4)
                 notes.append(dict(id=nid, step=st, alter=al, octave=oc, on=on, dur=d, voice=v, staff=1 if v <= 2 else 2,
-                                  grace=False, arts=arts, tie=cuts))
+                                  grace=False, arts=arts, orns=orns, fermata=ferm, fingering=fing, tie=cuts))
                 nid += 1
-    if not with_vs:
+    # voices and staves: all given (with the generator's numbering, other staff numbers, or many voices / staves so
+    # that the tokens have two digits), none given, only voices given, or missing on some of the notes only
+    if vs_mode == "none":
         for n in notes:
             n["voice"] = None
             n["staff"] = None
-    elif rng.random() < 0.2:
-        for n in notes:
-            n["staff"] = rng.randint(1, 3)
+    else:
+        r = rng.random()
+        if r < 0.2:
+            for n in notes:
+                n["staff"] = rng.randint(1, 3)
+        elif r < 0.34:
+            top = rng.choice([4, 10, 12, 16, 23])
+            for n in notes:
+                n["staff"] = rng.randint(1, top)
+        if rng.random() < 0.12:
+            shift = rng.choice([5, 8, 9, 10, 17])
+            for n in notes:
+                n["voice"] += rng.randint(0, shift)
+        if vs_mode == "voices_only":
+            for n in notes:
+                n["staff"] = None
+        elif vs_mode == "some_voices_missing":
+            for n in notes:
+                if rng.random() < 0.3:
+                    n["voice"] = None
+        elif vs_mode == "some_staves_missing":
+            for n in notes:
+                if rng.random() < 0.3:
+                    n["staff"] = None
 
     def sid(k):
         return {"n": "n%d" % k, "s": "s%d" % k, "m": "P1-m%d" % k}[id_style]
@@ -208,12 +324,22 @@ def gen_case(rng, size=1.0):
         return pid
 
     r_non = rng.choice([0.0, 0.1, 0.2, 0.4])
+    # the exporter orders insertions with a performance-time -> score-time map through the matched notes that have
+    # a duration: alignments with exactly one such match, and with none (only grace notes matched: known finding K1)
+    r = rng.random()
+    al_mode = "only_grace_matched" if r < 0.025 else "single_match" if r < 0.075 else "any"
+    plain = [n["id"] for n in notes if not n["grace"]]
+    the_one = rng.choice(plain) if plain else None
+    if al_mode != "any":
+        r_non = max(r_non, 0.2)
     lead = Fraction(rng.randint(0, 2000), 1000)
     for n in notes:
         tq = Fraction(n["on"], divs) * spq + lead
         mp = 12 * (n["octave"] + 1) + BASE[n["step"]] + (n["alter"] or 0)
         mp = min(108, max(21, mp))
-        if rng.random() < r_non * 0.6:
+        if (al_mode == "any" and rng.random() < r_non * 0.6) or (
+                al_mode != "any" and not n["grace"] and not (al_mode == "single_match" and n["id"] == the_one)) or (
+                al_mode != "any" and n["grace"] and rng.random() < 0.3):
             alignment.append(dict(label="deletion", score_id=n["id"]))
         else:
             jit = Fraction(rng.randint(-30, 30), 1000)
@@ -264,21 +390,32 @@ def build_objects(case):
     b = case["bounds"]
     for mi, num, den in case["tsigs"]:
         part.add(score.TimeSignature(num, den), b[mi])
-    for mi, f, mode in case["ksigs"]:
-        part.add(score.KeySignature(f, mode), b[mi])
+    for k in case["ksigs"]:
+        part.add(score.KeySignature(k[1], k[2]), b[k[0]] + (k[3] if len(k) > 3 else 0))
     for mi in range(len(b) - 1):
         part.add(score.Measure(number=mi + 1), b[mi], b[mi + 1])
     for n in case["notes"]:
         kw = dict(step=n["step"], alter=n["alter"], octave=n["octave"], voice=n["voice"], staff=n["staff"])
         if n["grace"]:
-            part.add(score.GraceNote(grace_type="acciaccatura", id=n["id"], **kw), n["on"], n["on"])
+            o = score.GraceNote(grace_type="acciaccatura", id=n["id"], articulations=list(n["arts"]) if n["arts"] else None,
+                                ornaments=list(n["orns"]) if n.get("orns") else None,
+                                technical=[score.Fingering(n["fingering"])] if n.get("fingering") else None, **kw)
+            part.add(o, n["on"], n["on"])
+            if n.get("fermata"):
+                o.fermata = score.Fermata(o)
+                part.add(o.fermata, n["on"])
             continue
         pts = [n["on"]] + list(n["tie"]) + [n["on"] + n["dur"]]
         prev = None
         for i in range(len(pts) - 1):
             nid = n["id"] if i == 0 else "%s_t%d" % (n["id"], i)
-            o = score.Note(id=nid, articulations=set(n["arts"]) if n["arts"] else None, **kw)
+            o = score.Note(id=nid, articulations=list(n["arts"]) if n["arts"] else None,
+                           ornaments=list(n["orns"]) if n.get("orns") else None,
+                           technical=[score.Fingering(n["fingering"])] if n.get("fingering") else None, **kw)
             part.add(o, pts[i], pts[i + 1])
+            if n.get("fermata"):
+                o.fermata = score.Fermata(o)
+                part.add(o.fermata, pts[i])
             if prev is not None:
                 prev.tie_next = o
                 o.tie_prev = prev
@@ -324,10 +461,32 @@ def observe_part(part):
     meas = by_pos((bm(m.start.t), float(bm(m.end.t))) for m in part.iter_all(score.Measure))
     ts = by_pos((bm(t.start.t), int(t.beats), int(t.beat_type)) for t in part.iter_all(score.TimeSignature))
     ks = by_pos((bm(k.start.t), int(k.fifths), str(k.mode)) for k in part.iter_all(score.KeySignature))
+    ts_div = sorted((int(t.start.t), int(t.beats), int(t.beat_type)) for t in part.iter_all(score.TimeSignature))
+    ks_div = sorted(((int(k.start.t), int(k.fifths), str(k.mode)) for k in part.iter_all(score.KeySignature)), key=lambda r: r[0])
+    meas_div = sorted((int(m.start.t), int(m.end.t)) for m in part.iter_all(score.Measure))
     q = sorted(set(int(x) for x in part._quarter_durations))
     # measure table as the exporter reads it: start in divisions, denominator in force there
     mt = sorted((int(m.start.t), int(part.time_signature_map(m.start.t)[1])) for m in part.iter_all(score.Measure))
-    return dict(notes=notes, measures=meas, tsigs=ts, ksigs=ks, quarter_durations=q, meas_tab=mt)
+    return dict(notes=notes, measures=meas, tsigs=ts, ksigs=ks, quarter_durations=q, meas_tab=mt,
+                ts_div=ts_div, ks_div=ks_div, meas_div=meas_div)
+
+
+def part_attrs(part):
+    """what save_match is given for the attribute list of every note of the part (read from the objects):
+    id -> (voice, staff, articulations, ornaments, fermata, fingerings, grace note), and the ids of the notes that
+    share onset and pitch with another note (their deletion lines get the mark voice_overlap)"""
+    from partitura import score
+    from collections import Counter
+
+    out = {}
+    for n in part.iter_all(score.Note, include_subclasses=True):
+        tech = [t.fingering for t in (n.technical or []) if isinstance(t, score.Fingering)]
+        out[str(n.id)] = (n.voice, n.staff, [str(a) for a in (n.articulations or [])], [str(a) for a in (n.ornaments or [])],
+                          n.fermata is not None, [int(t) for t in tech], isinstance(n, score.GraceNote))
+    na = part.note_array()
+    cnt = Counter((int(r["onset_div"]), int(r["pitch"])) for r in na)
+    overlap = sorted(str(r["id"]) for r in na if cnt[(int(r["onset_div"]), int(r["pitch"]))] > 1)
+    return dict(notes=out, overlap=overlap)
 
 
 def observe_file(path):
@@ -357,14 +516,16 @@ def observe_file(path):
             d.update(sid=str(s.Anchor), measure=int(s.Measure), beat=int(s.Beat),
                      off=[int(s.Offset.numerator), int(s.Offset.denominator), s.Offset.tuple_div],
                      dur=[int(s.Duration.numerator), int(s.Duration.denominator), s.Duration.tuple_div],
-                     dur_add=s.Duration.add_components, oib=fr(s.OnsetInBeats), offib=fr(s.OffsetInBeats))
+                     dur_add=s.Duration.add_components, oib=fr(s.OnsetInBeats), offib=fr(s.OffsetInBeats),
+                     attrs=[str(a) for a in s.ScoreAttributesList])
         if n is not None:
             d.update(pid=str(n.Id), pitch=int(n.MidiPitch), on=int(n.Onset), off_t=int(n.Offset), vel=int(n.Velocity))
         out.append(d)
     sp = []
     for ln in mf.lines:
         if getattr(ln, "Attribute", None) in ("timeSignature", "keySignature") and hasattr(ln, "Measure"):
-            val = [int(ln.Value.numerator), int(ln.Value.denominator)] if ln.Attribute == "timeSignature" else None
+            val = ([int(ln.Value.numerator), int(ln.Value.denominator)] if ln.Attribute == "timeSignature"
+                   else [int(ln.Value.fifths), str(ln.Value.mode)])
             sp.append(dict(attr=ln.Attribute, value=val, measure=int(ln.Measure), beat=int(ln.Beat),
                            off=[int(ln.Offset.numerator), int(ln.Offset.denominator)], tib=fr(ln.TimeInBeats)))
     ped = [dict(number=64 if "ustain" in type(ln).__name__ else 67, time=int(ln.Time), value=int(ln.Value))
@@ -386,7 +547,7 @@ def run_leg(obs, alignment, perf_arg, score_arg, ppq, mpq, path):
             else:
                 save_match(alignment, perf_arg, score_arg, out=path, mpq=mpq, ppq=ppq, assume_unfolded=True)
         except Exception as e:
-            return dict(status="save_error", error="%s: %s" % (type(e).__name__, str(e)[:300]), orig=obs["orig"])
+            return dict(status="save_error", error="%s: %s" % (type(e).__name__, str(e)[:300]), orig=obs["orig"], src=obs.get("src"))
         with open(path) as f:
             obs["text_lines"] = f.read().splitlines()
         try:
@@ -453,6 +614,7 @@ def run_impl(case, workdir, name="case"):
         except Exception as e:  # not the subject of C08 (construction of the inputs)
             return dict(status="build_error", error="%s: %s" % (type(e).__name__, e))
     obs["src"] = export_src_case(case)
+    obs["src_attrs"] = part_attrs(part)
     return run_leg(obs, alignment, ppart, part, case["ppq"], case["mpq"], path)
 
 
@@ -485,12 +647,14 @@ def run_chain(case, workdir, name="case"):
         o2 = dict(status="ok", use_defaults=bool(len(cur["pnotes"]) % 2), leg=k + 2, mode=mode)
         if mode == "loaded":
             o2["orig"], o2["src"] = obs["loaded"], export_src_part(obs["loaded"])
+            o2["src_attrs"] = part_attrs(scr[0])
             args = (al, perf, scr) if k % 2 == 0 else (al, perf[0], scr[0])
         else:
             with warnings.catch_warnings():
                 warnings.simplefilter("ignore")
                 part = build_objects(case)[0]
                 o2["orig"] = observe_part(part)
+                o2["src_attrs"] = part_attrs(part)
             o2["src"] = export_src_case(case)
             args = (al, perf[0], part)
         obs = run_leg(o2, args[0], args[1], args[2], ppq, mpq, os.path.join(workdir, "%s_leg%d.match" % (name, k + 2)))
@@ -670,11 +834,31 @@ def oracle(case, obs, score=True):
     lm = [(a, float(b)) for a, b in L["measures"]]
     if not (len(om) == len(lm) and all(close(x[0], y[0], rel=0, ab=Fraction(1, 10 ** 6)) and abs(x[1] - y[1]) < 1e-6 for x, y in zip(lm, om))):
         bad.append(("measures", "measures (start,end in beats) loaded %s, written %s" % (fl(lm), fl(om))))
-    if not same_pos(L["tsigs"], O["tsigs"]):
-        bad.append(("tsigs", "time signatures loaded %s, written %s" % (fl(L["tsigs"]), fl(O["tsigs"]))))
-    if not same_pos([k[:1] for k in L["ksigs"]], [k[:1] for k in O["ksigs"]]):
-        bad.append(("ksig_pos", "key signatures loaded at %s, written at %s" % (fl(L["ksigs"]), fl(O["ksigs"]))))
-    elif not same_pos(L["ksigs"], O["ksigs"]):
+    # a signature is expected at the start of the bar where it was written; one that repeats the value in force
+    # says nothing new (on either side)
+    starts = sorted(Fraction(m[0]) for m in O["measures"])
+
+    def at_bar_start(rows):
+        out = []
+        for r in rows:
+            p = Fraction(r[0])
+            before = [x for x in starts if x <= p + Fraction(1, 10 ** 6)]
+            out.append((str(before[-1] if before else p),) + tuple(r[1:]))
+        return out
+
+    def changes(rows):
+        out = []
+        for r in rows:
+            if not out or tuple(out[-1][1:]) != tuple(r[1:]):
+                out.append(r)
+        return out
+    ets, lts = changes(at_bar_start(O["tsigs"])), changes(L["tsigs"])
+    eks, lks = changes(at_bar_start(O["ksigs"])), changes(L["ksigs"])
+    if not same_pos(lts, ets):
+        bad.append(("tsigs", "time signatures loaded %s, written %s (expected at the start of their bars: %s)" % (fl(L["tsigs"]), fl(O["tsigs"]), fl(ets))))
+    if not same_pos([k[:1] for k in lks], [k[:1] for k in eks]):
+        bad.append(("ksig_pos", "key signatures loaded at %s, written at %s (expected at the start of their bars: %s)" % (fl(L["ksigs"]), fl(O["ksigs"]), fl(eks))))
+    elif not same_pos(lks, eks):
         bad.append(("ksig_value", "key signatures loaded %s, written %s" % (fl(L["ksigs"]), fl(O["ksigs"]))))
     return bad
 
@@ -682,7 +866,7 @@ def oracle(case, obs, score=True):
 # ----------------------------------------------------------------------------
 # correspondence: the same numbers as Coq terms (checked by Model/C08.v)
 
-IMPORTS = "From PV Require Import Lib.Base Model.C08."
+IMPORTS = "From PV Require Import Lib.Base Model.C08 Model.C08_attrs Model.C08_sigs Model.C08_glue."
 DEFS = """
 Definition chk_case_export (c : list (Z * Z * Z) * Z * list ((Z * Z) * (Z * Z * Q * Q))) : bool :=
   let '(tab, dpq, ns) := c in forallb (fun n => chk_export (tab, dpq, fst n, snd n)) ns.
@@ -761,6 +945,133 @@ def import_term(case, obs):
                            cq(qfrac(*s["dur"])), cz(s["dur"][1] * (s["dur"][2] or 1)), cq(dec4(Fraction(s["oib"])))]) for s in snotes])
     loaded = clist([ctuple([cz(L["notes"][s["sid"]]["onset_div"]), cz(L["notes"][s["sid"]]["duration_div"])]) for s in snotes])
     return ctuple([clist([ctuple([cq(t), cz(d)]) for t, d in tsl]), cq(first), notes, cz(L["quarter_durations"][0]), loaded])
+
+
+def pid_terms(case, obs):
+    """per match entry: the performed-note id given to save_match (as text), the id on the line of that score note
+    in the file, the id in the loaded alignment -- checked against fmt_pid / pid_leg of Model/C08_glue.v"""
+    by_sid = {ln["sid"]: ln for ln in obs["file"]["lines"] if ln["kind"] == "match"}
+    loaded = {a["score_id"]: a["performance_id"] for a in obs["alignment"] if a["label"] == "match"}
+    out = []
+    for a in case["alignment"]:
+        if a["label"] != "match" or a["score_id"] not in by_sid or a["score_id"] not in loaded:
+            continue
+        trip = (str(a["performance_id"]), by_sid[a["score_id"]]["pid"], str(loaded[a["score_id"]]))
+        if all(printable(w) and '"' not in w for w in trip):
+            out.append(ctuple([cstr(w) for w in trip]))
+    return out
+
+
+def defined_term(case, obs):
+    """(score notes given with their has-a-duration flag, performed ids, alignment, save_match succeeded) -- checked
+    against save_defined of Model/C08_glue.v (the boundary of the known finding C08-K1)"""
+    src = obs.get("src")
+    if not src or obs["status"] in ("build_error",):
+        return None
+    it, ip = Intern(), Intern()
+    snotes = clist([ctuple([cz(it(str(k))), cbool(v[1] > 0)]) for k, v in sorted(src["notes"].items())])
+    pids = clist([cz(ip(str(p["id"]))) for p in case["pnotes"]])
+    al = clist([cline(a["label"], it(str(a["score_id"])) if a.get("score_id") is not None else None,
+                      ip(str(a["performance_id"])) if a.get("performance_id") is not None else None) for a in case["alignment"]])
+    return ctuple([snotes, pids, al, cbool(obs["status"] != "save_error")])
+
+
+def printable(w):
+    return all(32 <= ord(c) < 127 for c in w)
+
+
+def attrs_export_terms(case, obs):
+    """per score note line of the file: the attributes of the note given to save_match (voice, staff,
+    articulations, ornaments, fermata, fingerings, grace note, voice_overlap mark expected) and the attribute list
+    read from the file -- checked against Model/C08_attrs.v exp_attrs"""
+    sa = obs.get("src_attrs")
+    if not sa:
+        return []
+    out, seen = [], set()
+    overlap = set(sa["overlap"])
+    for ln in obs["file"]["lines"]:
+        if ln["kind"] not in ("match", "deletion") or ln["sid"] not in sa["notes"] or ln["sid"] in seen:
+            continue
+        seen.add(ln["sid"])
+        v, st, arts, orns, ferm, fing, gr = sa["notes"][ln["sid"]]
+        if not all(printable(w) for w in list(arts) + list(orns) + ln["attrs"]):
+            continue
+        ov = ln["kind"] == "deletion" and ln["sid"] in overlap
+        given = ctuple([copt(None if v is None else int(v), cz), copt(None if st is None else int(st), cz),
+                        clist([cstr(a) for a in arts]), clist([cstr(a) for a in orns]), cbool(ferm),
+                        clist([cz(k) for k in fing]), cbool(gr), cbool(ov)])
+        out.append(ctuple([given, clist([cstr(a) for a in ln["attrs"]])]))
+    return out
+
+
+def attrs_import_term(case, obs):
+    """one term per file: for every score note line the attribute list, the numerator of the duration, the MIDI
+    pitch and what was loaded (voice, staff, staccato, accent, grace) -- checked against imp_attrs, fill_voice,
+    fill_staff of Model/C08_attrs.v"""
+    L = obs["loaded"]["notes"]
+    rows, seen = [], set()
+    for ln in obs["file"]["lines"]:
+        if ln["kind"] not in ("match", "deletion"):
+            continue
+        if ln["sid"] in seen or ln["sid"] not in L or ln["dur_add"] or not all(printable(w) for w in ln["attrs"]):
+            return None
+        seen.add(ln["sid"])
+        n = L[ln["sid"]]
+        rows.append(ctuple([clist([cstr(a) for a in ln["attrs"]]), cz(ln["dur"][0]), cz(n["pitch"]),
+                            ctuple([cz(n["voice"]), cz(n["staff"]), cbool("staccato" in n["arts"]), cbool("accent" in n["arts"]),
+                                    cbool(n["grace"])])]))
+    return clist(rows) if rows else None
+
+
+MODE_CODE = {"major": 1, "minor": 2}
+
+
+def layout_term(case, obs):
+    """one term per file: time and key signature rows of the file (time in beats, measure, value), first onset, the
+    note lines in the importer's order, and what was loaded: divisions, time signatures, key signatures (position
+    in divisions, value), measures (start, end) -- checked against Model/C08_sigs.v (sig_rows, place, spans)"""
+    snotes = [ln for ln in obs["file"]["lines"] if ln["kind"] in ("match", "deletion")]  # in the order of the file
+    if not snotes or any(s["dur_add"] for s in snotes) or len(set(s["sid"] for s in snotes)) != len(snotes):
+        return None
+    L = obs["loaded"]
+    if len(L["quarter_durations"]) != 1:
+        return None
+    notes = clist([ctuple([cz(s["measure"]), cz(s["beat"]), cq(qfrac(*s["off"])), cz(s["off"][1] * (s["off"][2] or 1)),
+                           cq(qfrac(*s["dur"])), cz(s["dur"][1] * (s["dur"][2] or 1)), cq(dec4(Fraction(s["oib"])))]) for s in snotes])
+
+    def zz(a, b):
+        return ctuple([cz(a), cz(b)])
+    tsr = [ctuple([cq(dec4(Fraction(sp["tib"]))), cz(sp["measure"]), zz(*sp["value"])])
+           for sp in obs["file"]["scoreprops"] if sp["attr"] == "timeSignature"]
+    ksr = [ctuple([cq(dec4(Fraction(sp["tib"]))), cz(sp["measure"]), zz(sp["value"][0], MODE_CODE.get(sp["value"][1], 0))])
+           for sp in obs["file"]["scoreprops"] if sp["attr"] == "keySignature"]
+    if not tsr:
+        return None
+    lts = clist([ctuple([cz(t), zz(a, b)]) for t, a, b in L["ts_div"]])
+    lks = clist([ctuple([cz(t), zz(f, MODE_CODE.get(m, 0))]) for t, f, m in L["ks_div"]])
+    lmeas = clist([zz(a, b) for a, b in L["meas_div"]])
+    return ctuple([clist(tsr), clist(ksr), notes, cz(L["quarter_durations"][0]), lts, lks, lmeas])
+
+
+def sig_export_term(case, obs):
+    """measure table of the part given to save_match and, for each of its time / key signatures inside a measure (in
+    the order of time), the time in divisions and the measure number on the corresponding scoreprop line of the
+    file -- checked against sig_meas of Model/C08_sigs.v"""
+    src, O = obs.get("src"), obs.get("orig")
+    if not src or not O or "ts_div" not in O:
+        return None
+    tab = sorted(src["tab"], key=lambda r: r[1])
+    if not tab:
+        return None
+    end = max(b for _, b in O["meas_div"]) if O.get("meas_div") else None
+    rows = []
+    for attr, key in (("timeSignature", "ts_div"), ("keySignature", "ks_div")):
+        given = [r[0] for r in O[key] if r[0] >= tab[0][1] and (end is None or r[0] < end)]
+        written = [sp["measure"] for sp in obs["file"]["scoreprops"] if sp["attr"] == attr]
+        if len(given) != len(written):
+            return None
+        rows += [ctuple([cz(t), cz(m)]) for t, m in zip(given, written)]
+    return ctuple([clist([ctuple([cz(a), cz(b), cz(c)]) for a, b, c in tab]), clist(rows)])
 
 
 def perf_terms(case, obs, limit=None):
@@ -1004,6 +1315,62 @@ K2_CASE = dict(
     controls=[], ppq=480, mpq=500000, pclock=None, legs=[])
 
 
+def _corpus_case(divs, bounds, tsigs, ksigs, notes, pickup=0, labels=None, insertions=0, ornaments=(), legs=(), clock=(480, 500000)):
+    """a hand-written history: notes = (id, step, alter, octave, onset, duration, voice, staff, extras)"""
+    ns, pn, al = [], [], []
+    for k, (nid, st, alt, oc, on, dur, v, sf, ex) in enumerate(notes):
+        ns.append(dict(dict(id=nid, step=st, alter=alt, octave=oc, on=on, dur=dur, voice=v, staff=sf, grace=dur == 0, arts=[],
+                            orns=[], fermata=False, fingering=None, tie=[b for b in bounds if on < b < on + dur]), **ex))
+        lab = (labels or {}).get(nid, "match")
+        if lab == "match":
+            t = Fraction(on, divs) / 2
+            pn.append(dict(id="n%d" % k, pitch=36 + 2 * k, on=str(t), off=str(t + Fraction(1, 4)), vel=40 + k))
+            al.append(dict(label="match", score_id=nid, performance_id="n%d" % k))
+        else:
+            al.append(dict(label="deletion", score_id=nid))
+    for j in range(insertions):
+        t = Fraction(1 + 2 * j, 8)
+        pn.append(dict(id="n%d" % (100 + j), pitch=90 + j, on=str(t), off=str(t + Fraction(1, 8)), vel=70))
+        al.append(dict(label="insertion", performance_id="n%d" % (100 + j)))
+    for j, nid in enumerate(ornaments):
+        t = Fraction(3 + 2 * j, 16)
+        pn.append(dict(id="n%d" % (200 + j), pitch=100 + j, on=str(t), off=str(t + Fraction(1, 16)), vel=50))
+        al.append(dict(label="ornament", score_id=nid, performance_id="n%d" % (200 + j), type="trill"))
+    ctrl = [dict(number=64, time="1/4", value=127), dict(number=67, time="1/2", value=0), dict(number=64, time="3/4", value=0)]
+    return dict(divs=divs, grid=1, tsigs=tsigs, ksigs=ksigs, bounds=bounds, pickup=pickup, notes=ns, pnotes=pn, alignment=al,
+                controls=ctrl, ppq=clock[0], mpq=clock[1], pclock=None, legs=[list(l) for l in legs])
+
+
+def _q(i, on, dur=4, v=1, sf=1, **ex):
+    return ("s%d" % i, "CDEFGAB"[i % 7], 0, 4, on, dur, v, sf, ex)
+
+
+# hand-written histories run before the generated ones on every run (each is a class of input a past change needed)
+CORPUS = [
+    # look-alikes of the supported articulations, ornaments starting with v / s, fermata, fingering
+    ("articulation_lookalikes", _corpus_case(4, [0, 16, 32], [[0, 4, 4]], [[0, 0, "major"]], [
+        _q(0, 0, arts=["staccato"]), _q(1, 4, arts=["staccatissimo"]), _q(2, 8, arts=["accent", "soft-accent"]),
+        _q(3, 12, arts=["strong-accent", "detached-legato"]), _q(4, 16, arts=["stress", "spiccato"], orns=["vertical-turn", "shake"]),
+        _q(5, 20, arts=["tenuto"], orns=["schleifer"], fermata=True, fingering=3), _q(6, 24, arts=["unstress", "scoop"]), _q(7, 28)],
+        legs=[(1000, 600000, "loaded")])),
+    # voices and staves with two digits, a note with a staff but no voice, a note with a voice but no staff
+    ("voice_staff_tokens", _corpus_case(4, [0, 16, 32], [[0, 4, 4]], [[0, -2, "minor"]], [
+        _q(0, 0, v=12, sf=10), _q(1, 4, v=3, sf=12), _q(2, 8, v=None, sf=11), _q(3, 12, v=10, sf=None),
+        _q(4, 16, v=None, sf=2), _q(5, 20, v=1, sf=1), _q(6, 24, v=21, sf=23), _q(7, 28, v=None, sf=None)])),
+    # pickup, key signature inside a bar, key written again, time signatures A A B A
+    ("signatures", _corpus_case(4, [0, 8, 24, 40, 52, 68], [[0, 4, 4], [2, 4, 4], [3, 3, 4], [4, 4, 4]],
+                                [[0, 1, "major"], [2, 3, "minor", 6], [3, 3, "minor"], [4, -4, "major", 4]], [
+        _q(0, 0), _q(1, 4), _q(2, 8, 8), _q(3, 18), _q(4, 24), _q(5, 30, 6), _q(6, 40, 12), _q(7, 52, 2), _q(8, 60, 8)],
+        pickup=8, legs=[(96, 600000, "loaded"), (4000, 500000, "orig")])),
+    # exactly one match of a note with a duration, a matched grace note, insertions, ornaments, a deleted unison
+    ("single_match", _corpus_case(4, [0, 16, 32], [[0, 4, 4]], [], [
+        _q(0, 0), ("s1", "D", 0, 4, 4, 0, 1, 1, {}), _q(2, 4), _q(3, 8, v=1), ("s4", "F", 0, 4, 8, 4, 2, 1, {}),
+        _q(5, 16, 8), _q(6, 24, 8)],
+        labels={"s0": "deletion", "s3": "deletion", "s4": "deletion", "s5": "deletion", "s6": "deletion"},
+        insertions=3, ornaments=("s2", "s5"))),
+]
+
+
 def unprefixed_load(case, obs, workdir):
     """the written file with the older numeric performed-note ids (note(12,..) instead of note(n12,..), as in the
     fixture of format 4.0): loading it must give the same alignment and performance (ids are 'n'-prefixed on load)"""
@@ -1038,26 +1405,27 @@ def sub_case(case, keep_ids):
     return c
 
 
-class _Timeout(Exception):
-    pass
+class _Timeout(BaseException):
+    """not an Exception: the `except Exception` handlers around the implementation must not swallow it"""
 
 
 def run_guarded(case, workdir, name="case", seconds=60):
-    """check_chain under an alarm -> ([(leg, clause, message)], [(case of leg, observations)])"""
+    """check_chain under a CPU-time budget of the process (ITIMER_VIRTUAL: a loaded machine does not trip it)
+    -> ([(leg, clause, message)], [(case of leg, observations)])"""
     import signal
 
     def h(*a):
         raise _Timeout()
-    old = signal.signal(signal.SIGALRM, h)
-    signal.alarm(seconds)
+    old = signal.signal(signal.SIGVTALRM, h)
+    signal.setitimer(signal.ITIMER_VIRTUAL, seconds)
     try:
         return check_chain(case, workdir, name)
     except _Timeout:
-        msg = "no result after %d s (save_match/load_match does not terminate)" % seconds
+        msg = "no result after %d s of CPU time (save_match/load_match does not terminate)" % seconds
         return [(1, "load_error", msg)], [(case, dict(status="load_error", error=msg))]
     finally:
-        signal.alarm(0)
-        signal.signal(signal.SIGALRM, old)
+        signal.setitimer(signal.ITIMER_VIRTUAL, 0)
+        signal.signal(signal.SIGVTALRM, old)
 
 
 def in_domain(c):
@@ -1136,6 +1504,45 @@ def features(case):
                 firsts[mi] = min(firsts.get(mi, 10 ** 9), n["on"] - case["bounds"][mi])
     if any(v > 0 for v in firsts.values()):
         f.append("bar_starts_with_rest")
+    grace_ids = {n["id"] for n in case["notes"] if n["grace"]}
+    nm = len([a for a in case["alignment"] if a["label"] == "match" and a["score_id"] not in grace_ids])
+    if nm <= 1:
+        f.append("al_one_match_with_duration" if nm else "al_no_match_with_duration")
+    seen_op = set()
+    for n in case["notes"]:
+        key = (n["on"], n["step"], n["alter"] or 0, n["octave"])
+        if key in seen_op:
+            f.append("unison")
+        seen_op.add(key)
+    if any(len(k) > 3 for k in case["ksigs"]):
+        f.append("ks_inside_bar")
+    if any(a[1:3] == b[1:3] for a, b in zip(case["ksigs"], case["ksigs"][1:])):
+        f.append("ks_restated")
+    if any(a[1:] == b[1:] for a, b in zip(case["tsigs"], case["tsigs"][1:])):
+        f.append("ts_restated")
+    if len({tuple(t[1:]) for t in case["tsigs"]}) < len([t for a, t in zip([None] + case["tsigs"], case["tsigs"]) if a is None or a[1:] != t[1:]]):
+        f.append("ts_value_returns")
+    arts = [a for n in case["notes"] for a in n.get("arts", [])]
+    if any(a not in SUPPORTED_ARTS and ("stac" in a or "accent" in a) for a in arts):
+        f.append("art_lookalike")
+    if any(a in SUPPORTED_ARTS for a in arts):
+        f.append("art_supported")
+    if any(n.get("orns") for n in case["notes"]):
+        f.append("ornament")
+    if any(n.get("fermata") for n in case["notes"]):
+        f.append("fermata")
+    if any(n.get("fingering") for n in case["notes"]):
+        f.append("fingering")
+    vs = [n["voice"] for n in case["notes"]]
+    st = [n["staff"] for n in case["notes"]]
+    if any(v is None for v in vs):
+        f.append("voice_missing_all" if all(v is None for v in vs) else "voice_missing_some")
+    if any(x is None for x in st):
+        f.append("staff_missing_all" if all(x is None for x in st) else "staff_missing_some")
+    if any(v is not None and v >= 10 for v in vs):
+        f.append("voice_two_digits")
+    if any(x is not None and x >= 10 for x in st):
+        f.append("staff_two_digits")
     pc = case.get("pclock")
     if pc:
         f.append("stored_ticks_same_clock" if tuple(pc) == (case["ppq"], case["mpq"]) else "stored_ticks_other_clock")
@@ -1229,7 +1636,11 @@ def run(ctx):
                 "load_match(create_score=True) [leg 1], then 0-2 further legs: what was loaded (performance, alignment and either the "
                 "loaded or the generated score part) -> save_match with a clock drawn again from {(480,500000),(1000,600000),"
                 "(96,600000),(4000,500000),(1,1000000)} (60 %), 7 other pairs or a random pair -> load_match; every clause of C08 is "
-                "evaluated after every leg, the seconds handed to save_match being the original seconds of that leg. non-trivial = "
+                "evaluated after every leg, the seconds handed to save_match being the original seconds of that leg. Score notes "
+                "carry 0-3 articulations of partitura's vocabulary (16 names, look-alikes of staccato/accent weighted), ornaments, "
+                "fermata, fingering; voices / staves all given, none, or missing on some notes, numbers up to 21 / 23; unisons; time and "
+                "key signatures written again with the value in force, A-B-A time signatures, key signatures inside a bar; alignments "
+                "with exactly one / no match of a note with a duration; 4 hand-written corpus histories first. non-trivial = "
                 "distinct history with at least one of: pickup, time-signature change, non-quarter meter, key change, tie, grace note, "
                 "non-match alignment label, pedal events, bar starting with a rest, stored ticks, a further leg; plus stressed copies of "
                 "the written files (duplicated and conflicting lines) and the fixture match files of tests/data/match, each also "
@@ -1240,10 +1651,12 @@ def run(ctx):
                        "performance: no two overlapping notes of one pitch (C14), times >= 0; tick values within 2^-20 of a rounding tie are skipped and counted",
                        "performance note ids not starting with 'n' are compared after the documented 'n' prefixing; an exact repetition of a pedal event (same tick and value) is one line of the file",
                        "alignment: every score note (chain head) appears once as match or deletion, every performed note once as match, insertion or ornament",
+                       "signatures: at most one key signature per measure; a signature written inside a measure is expected at the start of that measure, one that repeats the value in force is expected on neither side; articulation / ornament names are those of partitura's vocabulary (Gen/C08_Vocab.v); voices >= 1; the staff / voice chosen by the importer for a note written without one is not compared",
                        "stored note_on_tick/note_off_tick of a performed note describe the clock the performance was loaded with; the seconds are the data (the property asks for the seconds rounded to the nearest tick of the clock of the file being written)"]
     ctx.matchers["C08-K1"] = k1_matcher
     ctx.matchers["C08-K2"] = k2_matcher
-    ok, why = ctx.coq_props(expect_min=29)
+    gen()
+    ok, why = ctx.coq_props(expect_min=57)
     quick = ctx.tier == "quick"
     ncases = 240 if quick else 3000
     work = ctx.work
@@ -1257,16 +1670,28 @@ def run(ctx):
                       dict(case=K2_CASE, status=chain[bad[0][0] - 1][1]["status"], clause=bad[0][1], message=bad[0][2], all=[b[2] for b in bad[:6]]))
     exp_terms, imp_terms, pf_terms, pd_terms, rd_terms, al_terms = [], [], [], [], [], []
     exp_cases, imp_cases, pf_cases, pd_cases, rd_labels = [], [], [], [], []
+    ax_terms, ai_terms, ly_terms, ax_cases, ai_cases, ly_cases = [], [], [], [], [], []
+    id_terms, df_terms, id_cases, df_cases = [], [], [], []
+    sx_terms, sx_cases = [], []
     skipped = 0
-    for i in range(ncases):
+    for i in range(-len(CORPUS), ncases):
         size = 1.0 if i % 5 else 2.0
-        case = gen_case(ctx.rng, size)
+        if i < 0:
+            case = CORPUS[i][1]
+            ctx.count("corpus:" + CORPUS[i][0])
+        else:
+            case = gen_case(ctx.rng, size)
         bad, chain = run_guarded(case, work, "c%d" % i)
         ctx.evaluations += len(chain)
         obs = chain[0][1]
         if obs["status"] == "build_error":
             ctx.count("input_rejected_by_constructors")
             continue
+        for c, o in chain:  # every leg, failed saves included: does the model predict whether save_match can work?
+            t = defined_term(c, o)
+            if t is not None:
+                df_terms.append(t)
+                df_cases.append(case)
         feats = features(case)
         for f in feats:
             ctx.count(f)
@@ -1292,9 +1717,13 @@ def run(ctx):
                 rep = dict(case=small, status=status, clause=clause, message=(sb or bad)[0][2], all=[b[2] for b in (sb or bad)[:6]])
                 ctx.violation("C08 %s: %s" % (clause, rep["message"]), rep)
                 n_viol += 1
-            continue
-        ctx.count("ok")
-        if i < 3:
+            # self-test switch: feed the model streams with the legs of failing histories too (to see that a
+            # change is caught by the correspondence on its own, not only by the direct oracle)
+            if not (os.environ.get("C08_TERMS_ALWAYS") and all(o["status"] == "ok" for _, o in chain)):
+                continue
+        else:
+            ctx.count("ok")
+        if 0 <= i < 3:
             ctx.sample(dict(case=dict((k, case[k]) for k in ("divs", "tsigs", "ksigs", "bounds", "pickup", "ppq", "mpq", "pclock", "legs")),
                             n_notes=len(case["notes"]), n_pnotes=len(case["pnotes"]), n_controls=len(case["controls"]),
                             first_pnote=case["pnotes"][:1], file_head=obs["text_lines"][6:13],
@@ -1317,6 +1746,28 @@ def run(ctx):
             if t is not None:
                 pd_terms.append(t)
                 pd_cases.append(case)
+            for t in pid_terms(c, o):
+                id_terms.append(t)
+                id_cases.append(case)
+            for t in attrs_export_terms(c, o):
+                ax_terms.append(t)
+                ax_cases.append(case)
+            t = attrs_import_term(c, o)
+            if t is not None:
+                ai_terms.append(t)
+                ai_cases.append(case)
+            t = sig_export_term(c, o)
+            if t is not None:
+                sx_terms.append(t)
+                sx_cases.append(case)
+            else:
+                ctx.count("sig_export_terms_skipped")
+            t = layout_term(c, o)
+            if t is not None:
+                ly_terms.append(t)
+                ly_cases.append(case)
+            else:
+                ctx.count("layout_terms_skipped")
         if i % 4 == 1:  # the older numeric performed-note ids
             c_last, o_last = chain[-1]
             r = unprefixed_load(c_last, o_last, work)
@@ -1438,30 +1889,78 @@ def run(ctx):
         step = len(terms) / float(cap)
         idx = sorted({int(k * step) for k in range(cap)})
         return [terms[k] for k in idx], [cases[k] for k in idx]
-    exp_terms, exp_cases = thin(exp_terms, exp_cases, 400 if quick else 8000)
-    imp_terms, imp_cases = thin(imp_terms, imp_cases, 400 if quick else 8000)
-    pf_terms, pf_cases = thin(pf_terms, pf_cases, 1200 if quick else 15000)
-    pd_terms, pd_cases = thin(pd_terms, pd_cases, 200 if quick else 4000)
-    for name, terms, cases, checker, what in (
+    exp_terms, exp_cases = thin(exp_terms, exp_cases, 320 if quick else 5000)
+    imp_terms, imp_cases = thin(imp_terms, imp_cases, 320 if quick else 5000)
+    pf_terms, pf_cases = thin(pf_terms, pf_cases, 800 if quick else 12000)
+    pd_terms, pd_cases = thin(pd_terms, pd_cases, 160 if quick else 2500)
+    ax_terms, ax_cases = thin(ax_terms, ax_cases, 900 if quick else 12000)
+    ai_terms, ai_cases = thin(ai_terms, ai_cases, 320 if quick else 4000)
+    ly_terms, ly_cases = thin(ly_terms, ly_cases, 320 if quick else 4000)
+    id_terms, id_cases = thin(id_terms, id_cases, 700 if quick else 10000)
+    sx_terms, sx_cases = thin(sx_terms, sx_cases, 320 if quick else 4000)
+    df_terms, df_cases = thin(df_terms, df_cases, 320 if quick else 4000)
+    streams = [
             ("export", exp_terms, exp_cases, "chk_case_export", "model encode_pos/enc_dur = measure:beat, offset, duration written by matchfile_from_alignment (every leg; parts built by the generator and parts loaded from a match file)"),
             ("import", imp_terms, imp_cases, "chk_import", "model divisions/bar times/decode_divs/decode_dur = divisions, onsets and durations of the part loaded by part_from_matchfile (every leg)"),
             ("perf", pf_terms, pf_cases, "chk_pnote", "model leg (exp_note, imp_note) = pitch, velocity, ticks and seconds of the loaded performed notes for the notes given to save_match, with and without stored ticks (every leg, fixtures saved again)"),
             ("pedal", pd_terms, pd_cases, "chk_pedal", "model ped_roundtrip = controls of the loaded performance for the controls given to save_match (every leg, fixtures saved again)"),
+            ("attrs_export", ax_terms, ax_cases, "chk_attrs_export", "model exp_attrs = attribute list of every score note line written by matchfile_from_alignment for the voice, staff, articulations, ornaments, fermata, fingerings, grace flag of the note given (every leg)"),
+            ("attrs_import", ai_terms, ai_cases, "chk_attrs_import", "model imp_attrs on the attribute lists of the file = voice and staff (where written), staccato, accent, grace of the notes loaded by part_from_matchfile (every leg)"),
+            ("layout", ly_terms, ly_cases, "chk_layout", "model sig_rows / place / spans on the signature rows and note lines of the file = time signatures, key signatures and measures (positions in divisions) of the part loaded by part_from_matchfile (every leg)"),
+            ("sig_export", sx_terms, sx_cases, "chk_sig_export", "model sig_meas = measure number written on every timeSignature / keySignature line for the signatures of the part given to save_match (every leg)"),
+            ("pids", id_terms, id_cases, "chk_pid", "model fmt_pid / pid_leg = performed-note id on the line of the file and in the loaded alignment for the id given in the alignment (every leg)"),
+            ("defined", df_terms, df_cases, "chk_defined", "model save_defined (a match entry pairs a performed note with a score note that has a duration) = save_match succeeded (every leg; boundary of the known finding C08-K1)"),
             ("reader", rd_terms, rd_labels, "chk_reader", "model validate(unique_first(lines)) = note lines returned by load_matchfile (written, stressed and fixture files)"),
-            ("alignment", al_terms, rd_labels, "chk_alignment", "model alignment_of = alignment_from_matchfile")):
-        try:
-            failing = ctx.coq_failing(name, IMPORTS, DEFS, terms, checker, shard=150 if name in ("export", "import", "pedal") else 400)
-        except RuntimeError as e:
-            ctx.obligation("correspondence: %s" % what, False, str(e)[-800:])
-            ctx.violation("correspondence machinery failed for %s: %s" % (name, str(e)[-600:]), {"name": name}, no_input=True)
+            ("alignment", al_terms, rd_labels, "chk_alignment", "model alignment_of = alignment_from_matchfile"),
+            # informational: the staff / voice CHOSEN for notes written without one (not named by the property)
+            ("attrs_fill", ai_terms[:120 if quick else 1500], ai_cases[:120 if quick else 1500], "chk_attrs_fill", None)]
+    # all streams are evaluated together: every case is the boolean  checker term ; the cases are dealt to
+    # 2 * VERIF_JOBS files of about the same text size (parsing the literals is what costs)
+    flat = [(len(t), si, k) for si, st in enumerate(streams) for k, t in enumerate(st[1])]
+    flat.sort(key=lambda x: (-x[0], x[1], x[2]))
+    nb = max(1, min(2 * max(1, core.NJOBS), len(flat)))
+    if not quick:
+        nb = max(nb, -(-len(flat) // 1500))
+    buckets = [[] for _ in range(nb)]
+    for n, (ln, si, k) in enumerate(flat):
+        r, pos = divmod(n, nb)
+        buckets[pos if r % 2 == 0 else nb - 1 - pos].append((si, k))  # boustrophedon: balanced sizes
+    width = max(len(b) for b in buckets) if flat else 0
+    order, bools = [], []
+    for b in buckets:
+        for si, k in b:
+            order.append((si, k))
+            bools.append("(%s %s)" % (streams[si][3], streams[si][1][k]))
+        for _ in range(width - len(b)):
+            order.append(None)
+            bools.append("true")
+    failing_by = {si: [] for si in range(len(streams))}
+    try:
+        for idx in (ctx.coq_failing("all", IMPORTS, DEFS, bools, "(fun b : bool => b)", shard=max(1, width)) if bools else []):
+            if order[idx] is not None:
+                failing_by[order[idx][0]].append(order[idx][1])
+        machinery = None
+    except RuntimeError as e:
+        machinery = str(e)
+    for si, (name, terms, cases, checker, what) in enumerate(streams):
+        failing = sorted(failing_by[si])
+        if what is None:
+            if machinery is None:
+                ctx.count("info:files_where_chosen_voice_or_staff_differs_from_model", len(failing))
+                ctx.count("info:files_compared_for_chosen_voice_or_staff", len(terms))
+            continue
+        if machinery is not None:
+            ctx.obligation("correspondence: %s" % what, False, machinery[-800:])
+            if si == 0:
+                ctx.violation("correspondence machinery failed: %s" % machinery[-600:], {"name": "all"}, no_input=True)
             continue
         ctx.obligation("correspondence: %s (%d terms)" % (what, len(terms)), not failing, failing[:5])
         ctx.log("correspondence %s: %d terms, %d failing" % (name, len(terms), len(failing)))
-        for j in failing[:3]:
-            c = cases[j]
+        for k in failing[:3]:
+            c = cases[k]
             ctx.violation("model and implementation disagree (%s): %s" % (name, what),
                           dict(clause="correspondence:" + name, case=c if isinstance(c, dict) else None, label=None if isinstance(c, dict) else c,
-                               term=terms[j][:3000]))
+                               term=terms[k][:3000]))
     ctx.extra["exhaustive"] = False
 
 
